@@ -939,6 +939,14 @@ func driveAggKernel(r *rand.Rand, w *bufio.Writer, id int, cv *coverOut) {
 		}
 		if r.Intn(3) == 0 {
 			shapes[r.Intn(3)] = iset{span{key << 16, key<<16 + 65535}} // a full chunk somewhere in the list
+		} else if r.Intn(2) == 0 {
+			// value ranges that touch: one input lies entirely above / below another and starts at (or right after) its extreme
+			i := r.Intn(3)
+			j := (i + 1 + r.Intn(2)) % 3
+			if r.Intn(2) == 0 { // keep the lower one small enough for array storage
+				shapes[i] = stackedShape(r, iset{span{key<<16 + uint64(r.Intn(30000)), key<<16 + uint64(30000+r.Intn(100))}}, key)
+			}
+			shapes[j] = stackedShape(r, shapes[i], key)
 		}
 		var err error
 		u, err = vennUniverse(32, []uint64{key << 16, (key + 1) << 16}, shapes[:])
